@@ -42,11 +42,27 @@ def bare_batch():
     return Bare()
 
 
+class _YOnly:
+    """an error-based detector driven through its label arguments only: update(y) = det.update(y_true=y, y_pred=y)"""
+
+    def __init__(self, det):
+        self.det = det
+
+    def update(self, y):
+        self.det.update(y, y)
+
+    def __getattr__(self, a):
+        return getattr(self.__dict__["det"], a)
+
+
 def _mk(name):
     from menelaus.change_detection import ADWIN, CUSUM, PageHinkley
+    from menelaus.concept_drift import DDM, STEPD
     from menelaus.data_drift import KdqTreeStreaming, KdqTreeBatch, HDDDM, CDBD, NNDVI, PCACD
     return {
         "BareStream": bare_stream, "BareBatch": bare_batch,
+        "DDM(y)": lambda: _YOnly(DDM(n_threshold=2, warning_scale=1, drift_scale=2)),
+        "STEPD(y)": lambda: _YOnly(STEPD(window_size=2)),
         "KdqTreeStreaming": lambda: KdqTreeStreaming(window_size=3, bootstrap_samples=8, count_ubound=1, persistence=0.3),
         "ADWIN": lambda: ADWIN(delta=0.5, new_sample_thresh=1, window_size_thresh=2, subwindow_size_thresh=1),
         "PageHinkley": lambda: PageHinkley(delta=0.01, threshold=1.0, burn_in=1),
@@ -62,6 +78,7 @@ def _mk(name):
 DETECTORS = {  # name -> (kind, univariate, needs set_reference, admissible increments of total per update)
     "BareStream": ("stream", False, False, [1]), "KdqTreeStreaming": ("stream", False, False, [1]),
     "ADWIN": ("stream", True, False, [1]), "PageHinkley": ("stream", True, False, [1]), "CUSUM": ("stream", True, False, [1]),
+    "DDM(y)": ("stream", True, False, [1]), "STEPD(y)": ("stream", True, False, [1]),
     "BareBatch": ("batch", False, True, [1]), "KdqTreeBatch": ("batch", False, True, [1]),
     "HDDDM": ("batch", False, True, [1]), "CDBD": ("batch", True, True, [1]), "NNDVI": ("batch", False, True, [1]),
 }
@@ -134,7 +151,9 @@ def variants(kind, inp):
     return v
 
 
-def alphabet(kind):
+def alphabet(kind, name=""):
+    if name.endswith("(y)"):     # label inputs: one column, no remembered names; only the number of observations matters
+        return [{"frame": f, "rows": r, "width": 1, "names": "a" if f else "-"} for f in (False, True) for r in (1, 2)]
     out = []
     for rows in ((1, 2) if kind == "stream" else (1, 3)):
         for w in (1, 2, 3):
